@@ -447,6 +447,20 @@ impl<'a> Gen<'a> {
         for v in x.iter_mut() {
             *v = gen_f64(self.rng);
         }
+        // rotations with structure: the two identities (w = 1 and w = -1), half turns, a quarter turn, a
+        // non-unit and the zero quaternion; translations that are zero or not
+        if self.rng.chance(2, 5) {
+            let h = std::f64::consts::FRAC_1_SQRT_2;
+            let q: [f64; 4] = *self.rng.pick(&[[1.0, 0.0, 0.0, 0.0], [-1.0, 0.0, 0.0, 0.0], [0.0, 1.0, 0.0, 0.0], [0.0, 0.0, 0.0, 1.0], [h, 0.0, h, 0.0], [2.0, 0.0, 0.0, 0.0], [0.0, 0.0, 0.0, 0.0], [0.5, 0.0, 0.0, 0.0], [1.0, 0.0, 0.0, -0.0]]);
+            for i in 0..4 {
+                x[i] = q[i].to_bits();
+            }
+            if self.rng.chance(1, 3) {
+                for i in 4..7 {
+                    x[i] = 0f64.to_bits();
+                }
+            }
+        }
         x
     }
 
